@@ -10,7 +10,7 @@ from checks import cprcommon as cg
 PROPERTY = "C03"
 RULE = ("two positions <= 1 NM apart (30% identical; latitude dense at the 58 NL transitions +-{0,1e-9..1e-2}, at 0, +-87, +-90; "
         "longitude dense at 0/+-90/+-180) encoded by the DO-260B reference encoder as one even and one odd airborne frame "
-        "(TC from one class 9-18 or 20-22, DF17/18, random altitude/surveillance bits), all time orders, both argument orders, "
+        "(TC from one class 9-18 or 20-22, DF17/18, random altitude/surveillance bits), all time orders (int, float and datetime time stamps, incl. sub-second differences), both argument orders, "
         "position() and airborne_position(); oracle: result within one quantisation step of the position encoded in the later "
         "frame (lon mod 360), None only if the reference NL of the two encoded latitudes differ, equal parities -> RuntimeError. "
         "non-trivial = latitude within 0.02 deg of a transition, |lat|>86.5, |lon|>179.9, displaced pair, or odd-first argument order; "
@@ -28,7 +28,7 @@ def s_pair(draw):
     return {
         "lat1": lat1, "lon1": lon1, "lat2": lat2, "lon2": lon2,
         "par1": draw(st.integers(0, 1)), "same_parity": draw(gen.uint(0, 19)) == 0,
-        "tc1": draw(tcs), "tc2": draw(tcs), "t1": t1, "t2": t2,
+        "tc1": draw(tcs), "tc2": draw(tcs), "t1": t1, "t2": t2, "as_datetime": draw(gen.uint(0, 3)) == 0,
         "ctx_alt1": draw(gen.ubits(12)), "ctx_alt2": draw(gen.ubits(12)),
         "ctx_misc": draw(gen.ubits(8)), "ctx_icao": draw(gen.addresses), "df": draw(st.sampled_from([17, 17, 18])),
     }
@@ -58,8 +58,10 @@ def chk_pair(case, note):
     t1, t2 = case["t1"], case["t2"]
     lat_nt = any(cpr.near_transition(x, 0.02) or abs(x) > 86.5 for x in (e1["rlat"], e2["rlat"]))
     displaced = (case["lat1"], case["lon1"]) != (case["lat2"], case["lon2"])
+    dtm = case.get("as_datetime", False)
+    T1, T2 = cg.as_time(t1, dtm), cg.as_time(t2, dtm)
     for order in ("12", "21"):
-        a, b = ((f1, t1, i1), (f2, t2, i2)) if order == "12" else ((f2, t2, i2), (f1, t1, i1))
+        a, b = ((f1, T1, i1), (f2, T2, i2)) if order == "12" else ((f2, T2, i2), (f1, T1, i1))
         for fname, fn in (("position", pms.adsb.position), ("airborne_position", pms.adsb.airborne_position)):
             r = call(fn, a[0], b[0], a[1], b[1])
             tag = "%s(%s, %s, %r, %r)" % (fname, a[0], b[0], a[1], b[1])
@@ -95,6 +97,8 @@ def chk_pair(case, note):
                     tag, r[1], [(e["rlat"], e["rlon"]) for e in cands])
     if i1 == i2:
         note.cls("same-parity")
+    if dtm:
+        note.cls("datetime-timestamps")
     note.cls("tc-baro" if case["tc1"] < 19 else "tc-gnss", "t1>t2" if t1 > t2 else ("t1<t2" if t1 < t2 else "t1==t2"))
     if lat_nt:
         note.cls("near-transition-or-pole")
